@@ -420,6 +420,8 @@ class Service:
         reg = pjrpc.server.MethodRegistry()
         validator = None
         for name in (names or sorted(self.methods)):
+            if name in VIEW_METHODS:
+                continue     # registered below, through the view class
             method = self.methods[name]
             if name in INTERNAL:
                 import pjrpc.server.validators.base as vbase
